@@ -211,8 +211,13 @@ class ResolveAnchorIds(Transform):
             del refnode["refuri"]
 
             # search explicit first
-            if target in explicit:
-                ref_id, implicit_title = explicit[target]
+            # (docutils stores the names of explicit targets normalised,
+            # so also look for the normalised form of what the link says)
+            explicit_name = (
+                target if target in explicit else nodes.fully_normalize_name(target)
+            )
+            if explicit_name in explicit:
+                ref_id, implicit_title = explicit[explicit_name]
                 refnode["refid"] = ref_id
                 if not refnode.children and implicit_title:
                     refnode += nodes.inline(
